@@ -233,6 +233,8 @@ def run(ctx):
         n = len(behs)
         hosts = [("h%d" % i, "o", "A" + (b"o%d-0\n" % i).hex(), "-", 0) if b == "o" else ("h%d" % i, b, "-", "-", 0) for i, b in enumerate(behs)]
         args = ["-R", "sim", "-f", str(f), "-t", "2"] + (["-b"] if batch else []) + ["-w", "h[0-%d]" % (n - 1), "cmd"]
+        if early_bad >= 5:
+            break       # failing schedules in hand already: report them rather than explore further
         pr = schedeng.explore_pb(eng, args, hosts, depth, sigs=sigs, max_runs=1500 if quick else 150000, env={"SCHED_MAXSTEP": "30000"}, timeout=10)
         pbstat["%s f=%d %s%s depth=%d" % (behs, f, sigs, " -b" if batch else "", depth)] = len(pr)
         for ru in pr:
